@@ -1002,7 +1002,12 @@ static int write_char(void *context, cif_value_tp *char_value, int allow_text) {
                                         || (analysis.length_max > LINE_LENGTH(context))
                                         || analysis.has_reserved_start
                                         || (analysis.max_semi_run >= (LINE_LENGTH(context) - 1))),
-                                analysis.contains_text_delim);
+                                /*
+                                 * prefixing is needed to protect embedded text delimiters, and also to allow folding
+                                 * inside a run of semicolons too long to leave any other fold point
+                                 */
+                                (analysis.contains_text_delim
+                                        || (analysis.max_semi_run >= (LINE_LENGTH(context) - 8 - FOLDING_WINDOW))));
                     }
                     break;
                 default: /* unexpected value */
